@@ -695,6 +695,10 @@ class Recfile(object):
 
         rows2read = numpy.unique(rows2read)
 
+        if rows2read.size == 0:
+            # an empty selection: nothing to check, zero rows are returned
+            return rows2read
+
         rmin = rows2read[0]
         rmax = rows2read[-1]
         if rmin < 0 or rmax >= self.nrows:
